@@ -994,6 +994,775 @@ def special_wire(ctx, pairs):
                 ctx.count("special:tms-wire-text")
 
 
+# ------------------------------------------------------------------------------------------------
+# protocol constants STRADDLING the boundary of serialised items
+#
+# A wire image is a concatenation of ITEMS (length prefix, header octets, length octets, values, trailer).  Code that
+# looks for a multi-octet constant in the image (instead of at its position) or avoids emitting one twice is right
+# for every content of every single field and wrong only when the constant is formed ACROSS two items: the last k
+# octets of one item and the first n-k of the next (an identifier ending in U+0010 followed by a 128-octet field
+# gives 10 80, the CSBK trailer).  Such an input is a conjunction of the content of one field, the length of
+# another and the flags, which field-wise dictionaries, sweeps and random streams do not correlate.  The generator
+# below is therefore constructive: every message kind is described as a list of items, and a small solver places
+# every constant of a dictionary at every item boundary with every split (passing through one-octet and empty
+# items), choosing header flags, second-header values, lengths and value heads / tails as needed; what the alphabet
+# of an item cannot express (0x80 as the first octet of UTF-8 ...) is counted as unreachable.  The placement is
+# verified on a reference layout written here (not on the library's output) before the case is run.
+# ------------------------------------------------------------------------------------------------
+ARS_CONSTS = {
+    # the CSBK trailer, doubled, overlapping, swapped, as part of the captured CSBK acknowledgement
+    "csbk": "1080", "csbk-x2": "10801080", "dle-csbk": "101080", "csbk-80": "108080", "csbk-dle": "108010", "csbk-swapped": "8010",
+    "csbk-ack": "3f1080", "csbk-pdu": "00033f1080",
+    # near misses of the trailer (one octet off) and the other ASCII + continuation-octet pairs
+    "dle-81": "1081", "dle-bf": "10bf", "dle-7f": "107f", "x11-80": "1180", "x0f-80": "0f80", "x00-80": "0080", "x20-80": "2080", "x7f-80": "7f80",
+    "dle-dle": "1010", "x80-80": "8080", "dle-nul": "1000", "nul-dle": "0010",
+    # header octets with what follows them in the captured messages, length-value look-alikes, length prefixes
+    "hdr-rrh": "f020", "hdr-rrh-lv": "f0200231", "hdr-rsh": "bf01", "hdr-query": "7400", "lv-11": "023131", "lv-empty2": "0000", "lv-empty3": "000000",
+    "len-1": "0001", "len-3": "0003", "len-7": "0007", "pdu-query": "000174", "pdu-reg": "0007f0200231310000",
+    # foreign constants
+    "bom8": "efbbbf", "crlf": "0d0a", "ff-ff": "ffff",
+}
+ARS_OWN = ("csbk",)  # every subset of its placements is also tried together in one message
+TMS_CONSTS = {
+    "crlf16": "0d000a00", "crlf16-x2": "0d000a000d000a00", "lf16": "0a00", "crlf8": "0d0a", "bom16le": "fffe", "bom16be": "feff", "bom8": "efbbbf",
+    "nul2": "0000", "nul4": "00000000", "ff-ff": "ffff",
+    # optional headers (UCS2_LE with s/n 0, 85, 127; one octet), first header + address length, capability, whole PDUs
+    "snhdr-ucs2": "8004", "snhdr-85": "9544", "snhdr-127": "9f64", "snhdr-85-crlf": "95440d000a00", "snhdr-5": "0500",
+    "hdr-text-addr0": "e000", "hdr-text-addr1": "a001", "hdr-ack-addr0": "9f00", "hdr-ack0": "1f00", "hdr-avail": "d00001",
+    "pdu-ack": "00021f00", "pdu-avail": "0003d00001", "len-2": "0002", "len-13": "000d",
+    # the sibling protocol's trailer
+    "csbk": "1080", "csbk-swapped": "8010",
+}
+TMS_OWN = ("crlf16", "snhdr-ucs2")
+SELF_TOTALS = (3, 16, 128, 257, 272, 384, 515)  # the message's own length prefix as the constant
+
+
+def _valid8(b: bytes) -> bool:
+    try:
+        b.decode("utf-8")
+        return True
+    except UnicodeDecodeError:
+        return False
+
+
+_CONT = (0x80, 0x90, 0xA0, 0xBF, 0x8F, 0x9F)
+_LEADS = (0xC2, 0xDF, 0xE1, 0xE0, 0xED, 0xEF, 0xF1, 0xF0, 0xF4)
+_COMPLETE = {}
+
+
+def _seqs(alpha, n):
+    if n == 0:
+        return [b""]
+    return [bytes([a]) + r for a in alpha for r in _seqs(alpha, n - 1)]
+
+
+def _utf8_suffix(head: bytes):
+    """shortest run of continuation octets that completes `head` to well-formed UTF-8 (None: `head` cannot start one)"""
+    key = ("s", head)
+    if key not in _COMPLETE:
+        _COMPLETE[key] = next((s for n in range(4) for s in _seqs(_CONT, n) if _valid8(head + s)), None)
+    return _COMPLETE[key]
+
+
+def _utf8_prefix(tail: bytes):
+    """shortest lead (+ continuation octets) in front of `tail` that makes it well-formed UTF-8 (None: impossible)"""
+    key = ("p", tail)
+    if key not in _COMPLETE:
+        cands = [b""] + [bytes([l]) + s for n in range(3) for l in _LEADS for s in _seqs(_CONT, n)]
+        _COMPLETE[key] = next((p for p in cands if _valid8(p + tail)), None)
+    return _COMPLETE[key]
+
+
+def _few(opts):
+    return opts if len(opts) <= 3 else [opts[0], opts[len(opts) // 2], opts[-1]]
+
+
+def _clone(sol):
+    return {"pick": dict(sol["pick"]), "val": {k: dict(v) for k, v in sol["val"].items()}, "pfx": sol["pfx"], "end": sol["end"]}
+
+
+def _forward(slots, i, rest, sol, out):
+    """match `rest` against the heads of items i, i+1, ... (an item shorter than `rest` is matched whole)"""
+    if not rest:
+        out.append(sol)
+        return
+    if i >= len(slots):
+        return
+    sl = slots[i]
+    kind, name = sl[0], sl[1]
+    sol = _clone(sol)
+    sol["end"] = i
+    if kind == "choice":
+        for o in _few([o for o in sl[2] if len(o[0]) >= len(rest) and o[0].startswith(rest)]):
+            t = _clone(sol)
+            t["pick"][name] = o
+            out.append(t)
+        for o in _few([o for o in sl[2] if len(o[0]) < len(rest) and rest.startswith(o[0])]):
+            t = _clone(sol)
+            t["pick"][name] = o
+            _forward(slots, i + 1, rest[len(o[0]):], t, out)
+    elif kind == "len":
+        if rest[0] <= slots[i + 1][3]:
+            sol["val"].setdefault(name, {})["len"] = rest[0]
+            _forward(slots, i + 1, rest[1:], sol, out)
+    elif kind == "val":
+        n = sol["val"].get(name, {}).get("len")
+        if n is None:
+            return
+        if n >= len(rest):
+            sol["val"][name]["head"] = rest
+            out.append(sol)
+        else:
+            sol["val"][name]["head"] = rest[:n]
+            _forward(slots, i + 1, rest[n:], sol, out)
+    elif kind == "rest":
+        if len(rest) <= sl[3]:
+            sol["val"].setdefault(name, {})["head"] = rest
+            out.append(sol)
+    elif kind == "const":
+        if len(sl[2]) >= len(rest):
+            if sl[2].startswith(rest):
+                out.append(sol)
+        elif rest.startswith(sl[2]):
+            _forward(slots, i + 1, rest[len(sl[2]):], sol, out)
+
+
+def straddle_solve(slots, const: bytes, s: int, j: int):
+    """every way (at most three per multi-valued item) to make const[:j] the LAST j octets of item s and const[j:] the
+    first octets of what follows"""
+    sl = slots[s]
+    kind, name = sl[0], sl[1]
+    sol = {"pick": {}, "val": {}, "pfx": None, "end": s}
+    starts = []
+    if kind == "pfx":
+        if j == 1:
+            sol["pfx"] = ("low", const[0])
+            starts = [sol]
+        elif j == 2:
+            sol["pfx"] = ("exact", const[0] << 8 | const[1])
+            starts = [sol]
+    elif kind == "choice":
+        for o in _few([o for o in sl[2] if len(o[0]) >= j and o[0].endswith(const[:j])]):
+            t = _clone(sol)
+            t["pick"][name] = o
+            starts.append(t)
+    elif kind == "len":
+        if j == 1 and const[0] <= slots[s + 1][3]:
+            sol["val"][name] = {"len": const[0]}
+            starts = [sol]
+    elif kind in ("val", "rest"):
+        if j <= sl[3]:
+            sol["val"][name] = {"tail": const[:j]}
+            starts = [sol]
+    elif kind == "const":
+        if j <= len(sl[2]) and sl[2].endswith(const[:j]):
+            starts = [sol]
+    out = []
+    for st in starts:
+        _forward(slots, s + 1, const[j:], st, out)
+    return out
+
+
+def straddle_merge(a, b):
+    """both placements in one message (None: they contradict each other)"""
+    m = _clone(a)
+    for k, o in b["pick"].items():
+        if m["pick"].setdefault(k, o) != o:
+            return None
+    for k, c in b["val"].items():
+        d = m["val"].setdefault(k, {})
+        if "len" in c and d.setdefault("len", c["len"]) != c["len"]:
+            return None
+        for part, test in (("head", bytes.startswith), ("tail", bytes.endswith)):
+            if part in c:
+                x, y = d.get(part, b""), c[part]
+                lo, hi = (x, y) if len(x) <= len(y) else (y, x)
+                if not test(hi, lo):
+                    return None
+                d[part] = hi
+    if b["pfx"] is not None:
+        if m["pfx"] is not None and m["pfx"] != b["pfx"]:
+            return None
+        m["pfx"] = b["pfx"]
+    m["end"] = max(a["end"], b["end"])
+    return m
+
+
+def _cyc(body: bytes, n: int) -> bytes:
+    return (body * (n // max(1, len(body)) + 1))[:n] if n > 0 else b""
+
+
+def _render(alpha, con, fill, body: bytes):
+    """octets of a value: head (+ completion) + filler + (completion +) tail, of the constrained length if there is one"""
+    head, tail, n = con.get("head", b""), con.get("tail", b""), con.get("len")
+    hs, pt = head, tail
+    if alpha == "utf8":
+        s, p = _utf8_suffix(head), _utf8_prefix(tail)
+        if s is None or p is None:
+            return None
+        hs, pt = head + s, p + tail
+    if n is not None:
+        if len(hs) + len(pt) > n:
+            v = head + tail  # the two parts are the whole value
+            return v if len(v) == n and (alpha != "utf8" or _valid8(v)) else None
+        fill = n - len(hs) - len(pt)
+    v = hs + _cyc(body, fill) + pt
+    if (alpha == "utf8" and not _valid8(v)) or (alpha == "ucs2" and len(v) & 1):
+        return None
+    return v
+
+
+def straddle_realise(shape, sol, picks, mode, token: bytes, shift=0):
+    """octets of every item for a solution, in wire order: [(item name, octets)], or None when the alphabet of an item
+    cannot express what the placement needs.  `picks`: the header / second-header options of the items the placement
+    leaves alone; `mode`: what the values it leaves alone hold (plain / empty / token); `shift`: the length-prefix
+    constraint is applied to the length without the last `shift` octets (the trailer: a near miss on the wire)"""
+    slots = shape["slots"]
+    items, specs = {}, {}
+    tight = sol["pfx"] is not None
+    for i, sl in enumerate(slots):
+        kind, name = sl[0], sl[1]
+        if kind == "choice":
+            items[i] = (sol["pick"].get(name) or picks[name])[0]
+        elif kind == "const":
+            items[i] = sl[2]
+        elif kind in ("val", "rest"):
+            alpha, body = sl[2], shape["body"][name]
+            con = sol["val"].get(name)
+            if con is None:
+                base = {"plain": body, "empty": b"", "token": token if alpha != "utf8" or _valid8(token) else body}[mode]
+                if alpha == "ucs2" and len(base) & 1:
+                    base += b"\x00"
+                specs[i] = [alpha, {"head": base}, 0, mode != "empty", body, sl[3]]
+            elif "len" in con:
+                specs[i] = [alpha, con, None, False, body, sl[3]]
+            else:
+                fill = 0 if tight else len(body)
+                if alpha == "ucs2" and (len(con.get("head", b"")) + len(con.get("tail", b"")) + fill) & 1:
+                    fill += 1
+                specs[i] = [alpha, con, fill, True, body, sl[3]]
+            v = _render(*specs[i][:3], body)
+            if v is None or len(v) > sl[3]:
+                return None
+            items[i] = v
+    total = lambda: sum(len(items[i]) for i in items) + sum(1 for sl in slots if sl[0] == "len")  # noqa: E731
+    if tight:
+        how, want = sol["pfx"]
+        delta = (want + shift - total()) % 256 if how == "low" else want + shift - total()
+        if delta < 0:
+            return None
+        for i in sorted(specs):
+            alpha, con, fill, flexible, body, cap = specs[i]
+            step = 2 if alpha == "ucs2" else 1
+            take = min(delta, cap - len(items[i])) // step * step
+            if not flexible or take <= 0:
+                continue
+            v = _render(alpha, con, fill + take, body)
+            if v is None or len(v) != len(items[i]) + take:
+                continue
+            items[i] = v
+            delta -= take
+        if delta:
+            return None
+    n = total()
+    out = []
+    for i, sl in enumerate(slots):
+        if sl[0] == "pfx":
+            out.append((sl[1], n.to_bytes(2, "big")))
+        elif sl[0] == "len":
+            out.append(("L:" + sl[1], bytes([len(items[i + 1])])))
+        else:
+            out.append((sl[1], items[i]))
+    return out
+
+
+ARS_TYPE_CODE = {0: 0x0, 1: 0x1, 2: 0x5, 5: 0x4, 6: 0xF}
+ARS_FAIL_CODE = (0x00, 0x01, 0x02, 0xFF)
+TMS_TYPE_CODE = {0: (1, 0x0), 1: (1, 0xF), 2: (0, 0x0)}
+
+
+def ars_shapes():
+    """item lists of every ARS message kind: type x has_more x acknowledged x trailer (priority / control are options of
+    the header item, the registration event, refresh time and failure reason options of the second-header items)"""
+    shapes = []
+    for ty in ARS_IMPLEMENTED:
+        for bits in range(8):
+            more, ack, csbk = bits & 1, (bits >> 1) & 1, bits >> 2
+            hdr = [(bytes([128 * more + 64 * ack + 32 * prio + 16 * ctl + ARS_TYPE_CODE[ty]]), {"prio": prio, "ctl": ctl})
+                   for prio in (0, 1) for ctl in (0, 1)]
+            slots = [("pfx", "PFX"), ("choice", "HDR", hdr)]
+            if ty in ARS_REG:
+                if more:
+                    slots.append(("choice", "RRH", [(bytes([e << 5]), {"rrh": [e, 0]}) for e in range(3)]))
+                for k in ("dev", "user", "pw"):
+                    slots += [("len", k), ("val", k, "utf8", 255)]
+            elif ty == ARS_RESPONSE and more:
+                if ack:
+                    opts = [(bytes([c]), {"rsh": {"f": i, "r": None, "ctx": "self"}}) for i, c in enumerate(ARS_FAIL_CODE)]
+                else:
+                    opts = [(bytes([rt]), {"rsh": {"f": None, "r": rt, "ctx": "self"}}) for rt in range(1, 128)]
+                slots.append(("choice", "RSH", opts))
+            if csbk:
+                slots.append(("const", "TRL", b"\x10\x80"))
+            base = {"proto": "ars", "type": ty, "more": more, "ack": ack, "csbk": csbk, "rrh": None, "rsh": None, "dev": None, "user": None, "pw": None}
+            shapes.append({"proto": "ars", "base": base, "slots": slots, "body": {k: v.encode() for k, v in ARS_BODY.items()},
+                           "tag": f"type{ty}:more{more}:ack{ack}:csbk{csbk}"})
+    return shapes
+
+
+def tms_shapes():
+    """item lists of every TMS message kind: availability without / with capability, acknowledgement without / with the
+    optional header, text message (acknowledged / reserved are options of the header item; every sequence number x
+    encoding is an option of the optional-header item)"""
+    opt = [(bytes([sn]), {"seq": sn, "enc": None}) for sn in range(32)]
+    opt += [(bytes([sn]), {"seq": sn, "enc": 0}) for sn in (0, 31)]
+    for sn in range(128):
+        for e in (None, 0, 1):
+            if e == 1 or sn > 31:
+                opt.append((bytes([0x80 | sn % 32, (sn // 32) << 5 | (4 if e == 1 else 0)]), {"seq": sn, "enc": e}))
+    shapes = []
+    for ty, second in ((0, None), (0, "CAP"), (1, None), (1, "OPT"), (2, "OPT")):
+        ctl, code = TMS_TYPE_CODE[ty]
+        hdr = [(bytes([128 * (second is not None) + 64 * ack + 32 * (res or ty == 2) + 16 * ctl + code]), {"ack": ack, "res": res})
+               for ack in (0, 1) for res in (0, 1)]
+        slots = [("pfx", "PFX"), ("choice", "HDR", hdr), ("len", "addr"), ("val", "addr", "any", 255)]
+        if second == "CAP":
+            slots.append(("choice", "CAP", [(bytes([c]), {"cap": c}) for c in range(4)]))
+        elif second == "OPT":
+            slots.append(("choice", "OPT", opt))
+        if ty == 2:
+            slots.append(("rest", "msg", "ucs2", 400))
+        base = {"proto": "tms", "type": ty, "cap": None, "seq": None, "enc": None, "msg": None, "text": None}
+        shapes.append({"proto": "tms", "base": base, "slots": slots, "body": {"addr": ADDR_BODY, "msg": u16(TMS_BODY)},
+                       "tag": f"type{ty}:{second or 'plain'}"})
+    return shapes
+
+
+STRADDLE_DEFAULTS = {
+    "RRH": [(b"\x20", {"rrh": [1, 0]}), (b"\x00", {"rrh": [0, 0]}), (b"\x40", {"rrh": [2, 0]})],
+    "RSH:0": [(bytes([rt]), {"rsh": {"f": None, "r": rt, "ctx": "self"}}) for rt in (1, 16, 127)],
+    "RSH:1": [(bytes([c]), {"rsh": {"f": i, "r": None, "ctx": "self"}}) for i, c in enumerate(ARS_FAIL_CODE)],
+    "CAP": [(bytes([c]), {"cap": c}) for c in range(4)],
+    "OPT": [(b"\x05", {"seq": 5, "enc": None}), (b"\x95\x44", {"seq": 85, "enc": 1}), (b"\x80\x04", {"seq": 0, "enc": 1}),
+            (b"\x9f\x60", {"seq": 127, "enc": 0})],
+}
+STRADDLE_MODES = ("plain", "empty", "token")
+
+
+def straddle_fields(shape, sol, picks, items, rot):
+    """the field dictionary of a realised placement"""
+    f = dict(shape["base"])
+    for sl in shape["slots"]:
+        if sl[0] == "choice":
+            f.update((sol["pick"].get(sl[1]) or picks[sl[1]])[1])
+    vals = dict(items)
+    if f["proto"] == "ars":
+        for k in ("dev", "user", "pw"):
+            if k in vals:
+                f[k] = vals[k].hex() if vals[k] or k != "user" or rot & 1 else None  # None and "" are the same empty field
+        if f["type"] in ARS_REG and not f["more"] and rot & 2:
+            f["rrh"] = [rot % 3, 0]  # carried by the object, not serialised
+        f["ctor"] = ("member", "int", "bytes")[rot % 3]
+    else:
+        f["addr"] = vals["addr"].hex()
+        f["more"] = rot & 1
+        if "msg" in vals:
+            f["msg"] = vals["msg"].hex()
+            f["text"] = vals["msg"].decode("utf-16-le", "surrogatepass")
+        f["ctor"] = ("member", "int")[(rot >> 1) & 1]
+    return f
+
+
+def straddle_run(ctx, shape, sol, places, cname, rot, pairs, shift=0, label="straddle", every_flag=True, every_mode=False):
+    """one solution (places: [(constant, item, split)] it realises): under every option of the header item (flag
+    combinations) unless the placement fixes it; the values it leaves alone are plain, empty or hold the constant once
+    more (one of the three in quick, all in thorough).  Returns the number of cases run."""
+    te, td, ae, ad, misc = pairs
+    slots, proto = shape["slots"], shape["proto"]
+    hdr = [sol["pick"]["HDR"]] if "HDR" in sol["pick"] else slots[1][2] if every_flag else [slots[1][2][rot % len(slots[1][2])]]
+    const = places[0][0]
+    token = const if _valid8(const) or proto == "tms" else "".join(chr(b) for b in const).encode("utf-8")
+    done = 0
+    for hi, hopt in enumerate(hdr):
+        r = rot + hi
+        picks = {"HDR": hopt}
+        for sl in slots:
+            if sl[0] == "choice" and sl[1] != "HDR":
+                d = STRADDLE_DEFAULTS[sl[1] + (":%d" % shape["base"]["ack"] if sl[1] == "RSH" else "")]
+                picks[sl[1]] = d[r % len(d)]
+        ran = 0
+        for mode in [STRADDLE_MODES[(r + k) % 3] for k in range(3)]:
+            items = straddle_realise(shape, sol, picks, mode, token, shift)
+            if items is None:
+                continue
+            wire = b"".join(o for _, o in items)
+            if shift == 0 and any(wire[sum(len(o) for _, o in items[: s + 1]) - j :][: len(c)] != c for c, s, j in places):
+                ctx.count(f"{label}:solver-misplaced")  # never expected; not counted as a placement
+                continue
+            f = straddle_fields(shape, sol, picks, items, r)
+            c, s, j = places[0]
+            f["special"] = f"{label}:{cname}:{items[s][0]}|{items[sol['end']][0]}:k{j}"
+            b = (ars_case if proto == "ars" else tms_case)(ctx, f, ae if proto == "ars" else te, ad if proto == "ars" else td, label)
+            if b is not None and b != wire:
+                ctx.count(f"{label}:library-differs-from-reference-layout")
+            ran += 1
+            if not (every_mode or ctx.thorough()):
+                break
+        done += ran
+    if not done:
+        ctx.count(f"{label}-unreachable:{proto}:alphabet")  # solvable as octets, but not by a value of the item's alphabet
+    return done
+
+
+def captured_ngrams(hexes, sizes):
+    """every window of 2, 3 (, 4) octets of the captured messages of the test-suite: the constants somebody who reads the
+    tests would special-case"""
+    out = {}
+    for h in hexes:
+        b = bytes.fromhex(h)
+        for n in sizes:
+            for i in range(len(b) - n + 1):
+                out.setdefault(b[i : i + n].hex(), None)
+    return list(out)
+
+
+def special_straddle(ctx, rng, pairs):
+    """every constant x every item boundary x every split x every message kind; the protocol's own constants also at
+    several boundaries of one message; the message's own length prefix as the constant"""
+    for proto, shapes, consts, own, cap in (("ars", ars_shapes(), ARS_CONSTS, ARS_OWN, ARS_CAPTURED), ("tms", tms_shapes(), TMS_CONSTS, TMS_OWN, TMS_CAPTURED)):
+        rot = 0
+        consts = dict(consts)
+        curated = set(consts.values())
+        for h in captured_ngrams(cap, (2, 3, 4) if ctx.thorough() else (2, 3)):
+            if h not in curated:
+                consts["captured-ngram:" + h] = h
+        for shape in shapes:
+            slots = shape["slots"]
+            names = [("L:" + sl[1]) if sl[0] == "len" else sl[1] for sl in slots]
+            kind = "type%d:trailer%d" % (shape["base"]["type"], slots[-1][0] == "const") if proto == "ars" else shape["tag"]
+            own_sols = {c: [] for c in own}
+            for cname, h in consts.items():
+                const = bytes.fromhex(h)
+                ngram = cname.startswith("captured-ngram:")
+                cname = cname.split(":")[0]
+                for s in range(len(slots)):
+                    for j in range(1, len(const)):
+                        n = 0
+                        for sol in straddle_solve(slots, const, s, j):
+                            k = straddle_run(ctx, shape, sol, [(const, s, j)], cname, rot, pairs, every_flag=not ngram, every_mode=cname in own)
+                            rot += 1
+                            if not k:
+                                continue
+                            n += k
+                            ctx.count(f"straddle:{proto}:boundary:{names[s]}|{names[sol['end']]}", k)
+                            if sol["pfx"] is not None and slots[-1][0] == "const":
+                                # the same coincidence for the length WITHOUT the trailer (an intermediate value of a serialiser)
+                                straddle_run(ctx, shape, sol, [(const, s, j)], cname, rot, pairs, shift=len(slots[-1][2]), label="straddle-near", every_flag=not ngram, every_mode=cname in own)
+                            if cname in own:
+                                own_sols[cname].append((sol, s, j))
+                                ctx.count(f"straddle:{proto}:{cname}:{names[s]}|{names[sol['end']]}:k{j}:{kind}", k)
+                        if n:
+                            ctx.count(f"straddle:{proto}:const:{cname}", n)
+                        else:
+                            ctx.count(f"straddle-unreachable:{proto}:{cname}")
+            # the protocol's own constant at two and more boundaries of the same message
+            for cname in own:
+                const = bytes.fromhex(consts[cname])
+                subsets = [[x] for x in own_sols[cname]]
+                for size in (2, 3, 4):
+                    subsets = [sub + [x] for sub in subsets for x in own_sols[cname] if (x[1], x[2]) > (sub[-1][1], sub[-1][2])]
+                    for sub in subsets:
+                        m = sub[0][0]
+                        for x in sub[1:]:
+                            m = m and straddle_merge(m, x[0])
+                        if m and straddle_run(ctx, shape, m, [(const, x[1], x[2]) for x in sub], f"{cname}-x{size}", rot, pairs, label="straddle-multi", every_mode=True):
+                            ctx.count(f"straddle-multi:{proto}:{cname}:{size}-boundaries")
+                        rot += 1
+            # the message's own length prefix, seen again across a later boundary
+            for total in SELF_TOTALS:
+                const = total.to_bytes(2, "big")
+                for s in range(1, len(slots)):
+                    for sol in straddle_solve(slots, const, s, 1):
+                        sol["pfx"] = ("exact", total)
+                        if straddle_run(ctx, shape, sol, [(const, s, 1)], f"self-length-{total}", rot, pairs, label="straddle-self"):
+                            ctx.count(f"straddle-self:{proto}:{names[s]}|{names[sol['end']]}")
+                        rot += 1
+
+
+TRAILER_PARTS = ["\x10", "a\x10", "\x10a", "\x10\x10", "\x80", "\x10\x80", "\x80\x10", "\x10\x7f", "\x10\x81", "\x11\x80", "\x10\u1080", "\u8010",
+                 "\x10\x00", "\x00\x10"]
+
+
+def special_tails(ctx, pairs):
+    """sub-parts and near misses of the trailer in the LAST octets of the body (what a test of the last one or two
+    octets, or of `payload[-2]` / `payload[-1]` alone, would confuse with the trailer): as the end of the last non-empty
+    field, the following fields empty, with and without the real trailer behind it"""
+    te, td, ae, ad, misc = pairs
+    for e in TRAILER_PARTS:
+        for last in ("pw", "user", "dev"):
+            for alone in (0, 1):
+                for ci, car in enumerate(ARS_CARRIERS):
+                    for csbk in (0, 1):
+                        vals = {k: ((ARS_BODY[k] if not alone else "") + e if k == last else ARS_BODY[k] if ("dev", "user", "pw").index(k) < ("dev", "user", "pw").index(last) else "").encode("utf-8")
+                                for k in ("dev", "user", "pw")}
+                        f = ars_reg_fields(dict(car, csbk=csbk, others="plain"), vals, f"tail:{last}:{e.encode('utf-8').hex()}")
+                        if ci & 1:
+                            for k in ("user", "pw"):
+                                f[k] = f[k] or None
+                        ars_case(ctx, f, ae, ad, "tail")
+                        ctx.count("tail:ars-trailer-part-at-end-of-body")
+    # the acknowledgement's second header as the octet before the trailer / the end: every value is swept in `sweeps`
+
+
+def special_cross(ctx, rng, pairs):
+    """one part of a message equal to, or containing, ANOTHER part of the same message (or of its serialisation): equal
+    fields, a field holding the length-value form of its neighbour, the message's header / length prefix / optional
+    header / whole serialisation without that field inside a field"""
+    te, td, ae, ad, misc = pairs
+    a = A()
+    bodies = [("2001", "Op3rator", "s3cret"), ("\x10", "\x80" * 64, "\x10"), ("11", "", ""), ("\ufeff2001", "\r\n", "\x00\x00")]
+    for ci, car in enumerate(ARS_CARRIERS):
+        for bi, (d, u, w) in enumerate(bodies):
+            lv = lambda s: chr(len(s.encode("utf-8"))) + s  # noqa: E731  (the length octet as a character: U+0000..U+00FF)
+            variants = [
+                (d, d, d), (u, u, u), (d, d, w), (d, u, d), (d, u, u),
+                (d, lv(d), w), (d, u, lv(u)), (lv(u), u, w), (d, lv(d) + lv(u), w), (d, u, lv(d) + lv(u) + lv(w)), (lv(d) + lv(u) + lv(w), "", ""),
+                (d, u[::-1], w), (d + u, u + w, w + d), (d, d + u, d + u + w),
+            ]
+            # the message's own first octets (length prefix, header, registration header) as characters inside a field
+            f0 = ars_reg_fields(dict(car, others="plain"), {"dev": d.encode(), "user": u.encode(), "pw": w.encode()}, "cross:probe")
+            p = call(ars_build, f0)
+            b = p if is_err(p) else call(p.as_bytes)
+            if not is_err(b):
+                own = "".join(chr(x) for x in b[:4])
+                variants += [(own, u, w), (d, own, w), (d, u, own), (d + own, u, w), (d, u, own + w)]
+                whole = "".join(chr(x) for x in b)
+                if len(whole.encode("utf-8")) <= 255:
+                    variants += [(d, u, whole), (whole, u, w)]
+            for vi, (x, y, z) in enumerate(variants):
+                if any(len(s.encode("utf-8")) > 255 for s in (x, y, z)):
+                    continue
+                f = ars_reg_fields(dict(car, others="plain"), {"dev": x.encode(), "user": y.encode(), "pw": z.encode()}, f"cross:{bi}:{vi}")
+                ars_case(ctx, f, ae, ad, "cross")
+                ctx.count("cross:ars")
+    for ci, car in enumerate(TMS_CARRIERS):
+        for enc in (None, 1):
+            base = tms_text_fields(car, enc, u16(TMS_BODY), TMS_BODY, "cross:probe")
+            p = call(tms_build, base)
+            b = p if is_err(p) else call(p.as_bytes)
+            if is_err(b):
+                continue
+            empty = call(lambda: tms_build(dict(base, msg="", text="")).as_bytes())
+            ack = call(lambda: tms_build(dict(base, type=1, msg=None, text=None)).as_bytes())
+            addr = unhx(car["addr"])
+            opt = b[4 + len(addr) : len(b) - len(u16(TMS_BODY))]
+            even = lambda x: x + b"\x00" * (len(x) & 1)  # noqa: E731
+            msgs = [addr, even(addr), bytes([len(addr)]) + addr, b[:2], b[2:4], even(b[2:3] + bytes([len(addr)]) + addr), opt, even(opt), opt + u16(TMS_BODY),
+                    even(b), b[2:], empty if not is_err(empty) else b"", even(ack) if not is_err(ack) else b"", u16(TMS_BODY) + even(opt), u16(TMS_BODY) + b[:2]]
+            for mi, m in enumerate(msgs):
+                m = even(m)
+                tms_case(ctx, tms_text_fields(car, enc, m, m.decode("utf-16-le", "surrogatepass"), f"cross:msg{mi}"), te, td, "cross")
+                ctx.count("cross:tms-text")
+            addrs = [u16(TMS_BODY)[:8], opt, b[:2], b[2:3], b[:4], even(ack) if not is_err(ack) else b"", b[-4:], bytes([len(u16(TMS_BODY))]), bytes([car["seq"]])]
+            for ai, ad_ in enumerate(addrs):
+                for ty in range(3):
+                    f = dict(tms_text_fields(car, enc, u16(TMS_BODY), TMS_BODY, f"cross:addr{ai}"), addr=ad_[:255].hex(), type=ty)
+                    if ty != 2:
+                        f.update(msg=None, text=None)
+                    if ty == 0:
+                        f.update(seq=None, enc=None, cap=ai % 4)
+                    tms_case(ctx, f, te, td, "cross")
+                    ctx.count("cross:tms-address")
+
+
+class _Bytes(bytes):
+    """a bytes subclass (what another code path of an application may hand over)"""
+
+
+class _Str(str):
+    pass
+
+
+PROVENANCE = {
+    "tms": [("bytearray", bytearray), ("memoryview", memoryview), ("bytes-subclass", _Bytes),
+            ("readonly-memoryview-slice", lambda b: memoryview(b"\xff" + b + b"\xff")[1:-1])],
+    "ars": [("str-subclass", _Str), ("shared-object", None)],
+}
+
+
+def provenance_check(f, name):
+    """the same field VALUES handed over as another object of an accepted kind: None, or (kind, what, expected, actual)"""
+    mk = dict(PROVENANCE[f["proto"]])[name]
+    if f["proto"] == "tms":
+        ref = call(lambda: tms_build(f).as_bytes())
+
+        def build():
+            p = tms_build(f)
+            p.address = mk(unhx(f["addr"]))
+            p.message = mk(unhx(f["msg"]))
+            return p
+        p = call(build)
+        b = p if is_err(p) else call(p.as_bytes)
+        q = b if is_err(b) else call(T().TextMessagingService.from_bytes, b)
+        ok = (not is_err(b) and not is_err(q) and q is not None and b == ref and bytes(q.address) == unhx(f["addr"])
+              and bytes(q.message) == unhx(f["msg"]) and call(q.as_bytes) == b)
+        what = f"address / text given as {name} do not serialise and parse like the same octets given as bytes"
+    else:
+        ref = call(lambda: ars_build(f).as_bytes())
+        vals = [None if f[k] is None else unhx(f[k]).decode("utf-8") for k in ("dev", "user", "pw")]
+
+        def build():
+            p = ars_build(f)
+            if mk is None:  # one str object for all three fields (the values are equal)
+                p.device_identifier = p.user_identifier = p.password = vals[0]
+            else:
+                p.device_identifier, p.user_identifier, p.password = (None if v is None else mk(v) for v in vals)
+            return p
+        p = call(build)
+        b = p if is_err(p) else call(p.as_bytes)
+        q = b if is_err(b) else call(A().AutomaticRegistrationService.from_bytes, b)
+        ok = (not is_err(b) and not is_err(q) and q is not None and b == ref
+              and [q.device_identifier, q.user_identifier, q.password] == [v or "" for v in vals] and call(q.as_bytes) == b)
+        what = f"identifiers given as {name} do not serialise and parse like the same plain str values"
+    if ok:
+        return None
+    return (f["proto"] + "-provenance", what, ref if is_err(ref) else ref.hex(), b if is_err(b) else b.hex())
+
+
+def provenance_probe(ctx, rng):
+    """argument provenance: bytearray, memoryview, a read-only memoryview slice and a bytes subclass for the octet-typed TMS
+    fields (address, text), one object shared by address and text; a str subclass and one shared str object for the
+    ARS identifiers; the serialisation must be the one of the plain values and parse back equal"""
+    samples = [f for f in TMS_CORPUS if f["type"] == 2 and f["seq"] is not None and f["msg"] is not None]
+    samples += [tms_text_fields(TMS_CARRIERS[i % 6], (None, 0, 1)[i % 3], u16(t), t, "provenance") for i, t in enumerate(("", "\r\n", "\ufeffab", TMS_BODY, "\x10\x80", "a" * 200))]
+    for f in samples:
+        f = dict(f, ctor=f.get("ctor", "member"))
+        for name, _ in PROVENANCE["tms"]:
+            r = provenance_check(f, name)
+            ctx.case(("provenance", name, tms_enc_line(f)))
+            ctx.count("provenance:tms-" + name)
+            if r:
+                ctx.fail(r[0], dict(f, provenance=name), "TMS: " + r[1], expected=r[2], actual=r[3])
+        g = dict(f, addr=unhx(f["msg"])[:254].hex())  # equal address and text
+        r = tms_oracle(g)
+        ctx.case(("provenance", "equal-fields", tms_enc_line(g)))
+        ctx.count("provenance:tms-equal-address-and-text")
+        if r:
+            ctx.fail(r[0], g, "TMS: " + r[1], expected=r[2], actual=r[3])
+    for car in ARS_CARRIERS:
+        for v in ("2001", "\ufeff2001", "AB\x10", "u" * 128, ""):
+            f = ars_reg_fields(dict(car, others="plain"), {k: v.encode() for k in ("dev", "user", "pw")}, "provenance")
+            for name, _ in PROVENANCE["ars"]:
+                r = provenance_check(f, name)
+                ctx.case(("provenance", name, ars_enc_line(f)))
+                ctx.count("provenance:ars-" + name)
+                if r:
+                    ctx.fail(r[0], dict(f, provenance=name), "ARS: " + r[1], expected=r[2], actual=r[3])
+
+
+class _BrokenWriter:
+    def write(self, *_):
+        raise OSError("stream closed")
+
+    def flush(self):
+        raise OSError("stream closed")
+
+
+AMBIENTS = ("root-logger-debug", "stdout-raises", "random-reseeded", "python-O")
+
+
+def _verdict(f):
+    r = call(tms_oracle if f["proto"] == "tms" else ars_oracle, f)
+    return None if r is None else (("raised", r, None, None) if is_err(r) else tuple(r))
+
+
+def ambient_verdicts(name, sample):
+    """the oracle's verdict on every message of `sample` under the ambient state `name` (None = ordinary)"""
+    import io
+    import logging
+    import os
+    import random as _random
+    import subprocess
+    import sys as _sys
+
+    if name is None:
+        return [_verdict(f) for f in sample]
+    if name == "root-logger-debug":
+        root = logging.getLogger()
+        level, handler = root.level, logging.StreamHandler(io.StringIO())
+        handler.setFormatter(logging.Formatter("%(asctime)s %(name)s %(levelname)s %(message)s"))
+        root.addHandler(handler)
+        root.setLevel(logging.DEBUG)
+        try:
+            return [_verdict(f) for f in sample]
+        finally:
+            root.removeHandler(handler)
+            root.setLevel(level)
+    if name == "stdout-raises":
+        old = _sys.stdout
+        _sys.stdout = _BrokenWriter()
+        try:
+            return [_verdict(f) for f in sample]
+        finally:
+            _sys.stdout = old
+    if name == "random-reseeded":
+        state = _random.getstate()
+        try:
+            out = []
+            for i, f in enumerate(sample):
+                _random.seed(i % 3)
+                out.append(_verdict(f))
+            return out
+        finally:
+            _random.setstate(state)
+    if name == "python-O":
+        here = os.path.dirname(os.path.abspath(__file__))
+        code = ("import sys, json; sys.path[:0] = %r; import c16; fs = json.load(sys.stdin); rs = [c16._verdict(f) for f in fs]; "
+                "json.dump([None if r is None else [r[0], r[1], str(r[2])[:400], str(r[3])[:400]] for r in rs], sys.stdout)"
+                % ([os.path.dirname(here), here],))
+        c = subprocess.run([_sys.executable, "-O", "-c", code], input=json.dumps(sample), capture_output=True, text=True, timeout=300)
+        got = [None if r is None else tuple(r) for r in json.loads(c.stdout)]
+        if len(got) != len(sample):
+            raise ValueError("short output")
+        return got
+    raise ValueError(name)
+
+
+def ambient_probe(ctx, rng):
+    """the property on a fixed small sample under other ambient interpreter states (cheap; "every message serialises ...
+    parses back ..." leaves no room for a dependence on them): root logger at DEBUG with a handler that formats every
+    record, sys.stdout replaced by a writer that raises, the global `random` reseeded before every step, and a child
+    `python -O` (assert statements stripped).  A verdict that differs from the ordinary one is reported."""
+    import random as _random
+
+    sample = [dict(f, ctor="member") for f in TMS_CORPUS if tms_in_range(f)] + [dict(f, ctor="member") for f in ARS_CORPUS if ars_in_range(f)]
+    for csbk in (0, 1):
+        for ty in ARS_REG:
+            car = dict(ARS_CARRIERS[1 + csbk + ty], csbk=csbk, type=ty, others="plain")
+            sample.append(ars_reg_fields(car, {"dev": b"AB\x10", "user": b"u" * 128}, "ambient"))
+            sample.append(ars_reg_fields(car, {"user": b"\xef\xbb\xbfid\x10", "pw": b"\xc2\x80" * 64}, "ambient"))
+    for i, text in enumerate(("", "\r\nab", "\ufeff", TMS_BODY, "\u8010", "a" * 200)):
+        sample.append(tms_text_fields(TMS_CARRIERS[i % 6], (None, 0, 1)[i % 3], u16(text), text, "ambient"))
+    r2 = _random.Random(rng.getrandbits(32))
+    while len(sample) < ctx.budget(240, 2400):
+        f = gen_tms(r2, 1.0) if len(sample) & 1 else gen_ars(r2, 1.0)
+        if (tms_in_range if f["proto"] == "tms" else ars_in_range)(f):
+            sample.append(f)
+    base = ambient_verdicts(None, sample)
+    for name in AMBIENTS:
+        try:
+            got = ambient_verdicts(name, sample)
+        except Exception as e:  # noqa: infrastructure of the probe (child process), not a verdict
+            ctx.count(f"ambient:{name}:probe-failed")
+            ctx.notes.append(f"ambient probe {name} did not deliver verdicts: {type(e).__name__}")
+            continue
+        ctx.count("ambient:" + name, len(got))
+        for f, b, g in zip(sample, base, got):
+            ctx.case(("ambient", name, tms_enc_line(f) if f["proto"] == "tms" else ars_enc_line(f)))
+            if g is not None and (b is None or b[0] != g[0]):
+                ctx.fail(g[0], dict(f, ambient=name), f"{f['proto'].upper()} under {name}: {g[1]}", expected=g[2], actual=g[3])
+
+
 def decorate_text(rng, text: str, limit: int, measure) -> str:
     """random tokens into a random value (random generator's share); keeps the value within `limit`"""
     names = list(TOK_CORE)
@@ -1235,7 +2004,26 @@ def run(ctx):
         "199..202 UCS-2 units), every text length 0..202, 255-octet addresses of constants, three-field sums around 256 "
         "octets; 25 % of the random texts / identifiers are decorated with random tokens; hand-made wire images with "
         "ill-formed / boundary UTF-8 in each ARS field and TMS texts without optional header / with surplus octets feed the "
-        "correspondence only. Every generated octet string goes through the oracle and through the model (as_bytes and "
+        "correspondence only. "
+        "Constants STRADDLING item boundaries: every message kind (ARS type x has_more x acknowledged x trailer; TMS type x "
+        "second header) is described as a list of serialised items (length prefix, header, second headers, length octets, "
+        "values, trailer) and a solver places every constant of a dictionary (CSBK trailer 10 80, doubled, overlapping, "
+        "swapped, one octet off, every other ASCII + continuation-octet pair class; header / second-header / optional-header "
+        "octets with their neighbours, length-value and length-prefix look-alikes, UCS-2 CR LF, byte-order marks; every "
+        "2- and 3-octet window (thorough: 4) of the captured messages of the test-suite) at every item boundary with every "
+        "split (last k octets of one item + first n-k of the following ones, passing through one-octet and empty items), "
+        "choosing flags, second-header values, field lengths (0x10, 0x80, ...) and value heads / tails as needed, under every "
+        "remaining flag combination, with the untouched values plain / empty / holding the constant once more; the protocol's "
+        "own constants also at two and three boundaries of one message; the length-prefix coincidences also for the length "
+        "without the trailer; the message's own length prefix as the constant; placements an item's alphabet cannot express "
+        "(0x80 as first octet of UTF-8) are counted as unreachable and agree with theorem ars_trailer_sites (10 80 in a "
+        "registration: exactly four sites). Sub-parts and near misses of the trailer as the last octets of the body; one "
+        "field equal to / holding the length-value form, header, length prefix, optional header or whole serialisation of "
+        "another part of the same message. Argument provenance: bytearray / memoryview / read-only slice / bytes subclass for "
+        "the octet-typed TMS fields, str subclass and one shared object for the ARS identifiers. Ambient state: a fixed "
+        "sample of 240 in-range messages under root logger DEBUG, failing sys.stdout, reseeded global random and in a child "
+        "python -O. "
+        "Every generated octet string goes through the oracle and through the model (as_bytes and "
         "from_bytes lines). A case is distinct by its full field tuple / byte string."
     )
     ctx.trusted_base += [
@@ -1265,6 +2053,11 @@ def run(ctx):
     special_tokens(ctx, rng, (te, td, ae, ad, misc))
     special_lengths(ctx, rng, (te, td, ae, ad, misc))
     special_wire(ctx, (te, td, ae, ad, misc))
+    special_straddle(ctx, rng, (te, td, ae, ad, misc))
+    special_tails(ctx, (te, td, ae, ad, misc))
+    special_cross(ctx, rng, (te, td, ae, ad, misc))
+    provenance_probe(ctx, rng)
+    ambient_probe(ctx, rng)
     special_single_chars(ctx, rng, (te, td, ae, ad, misc))
     if ctx.thorough():
         special_factorial(ctx, (te, td, ae, ad, misc))
@@ -1307,8 +2100,15 @@ def replay(obj):
         b2 = q if is_err(q) else call(q.as_bytes)
         print("implementation: from_bytes(", f["captured"], ").as_bytes() =", b2 if is_err(b2) else b2.hex())
         return 0 if b2 == b else 1
+    special = None
+    if f.get("ambient") in AMBIENTS:
+        special = ambient_verdicts(f["ambient"], [f])[0]
+        print("re-run under ambient state:", f["ambient"])
+    elif f.get("provenance") in dict(PROVENANCE.get(f.get("proto"), [])):
+        special = provenance_check(f, f["provenance"])
+        print("re-run with field objects of kind:", f["provenance"])
     if f.get("proto") == "tms":
-        r = tms_oracle(f)
+        r = special or tms_oracle(f)
         p = call(tms_build, f)
         b = p if is_err(p) else call(p.as_bytes)
         print("implementation: as_bytes =", b if is_err(b) else b.hex())
@@ -1316,7 +2116,7 @@ def replay(obj):
             print("implementation: from_bytes(as_bytes) =", tms_dec(b))
         print("model line:", tms_enc_line(f))
     elif f.get("proto") == "ars":
-        r = ars_oracle(f)
+        r = special or ars_oracle(f)
         p = call(ars_build, f)
         b = p if is_err(p) else call(p.as_bytes)
         print("implementation: as_bytes =", b if is_err(b) else b.hex())
